@@ -627,4 +627,194 @@ theorem xlsxStylesOfEvents_enc (d : StyleDesc) (l : XlsxLayout) (hl : l.WF) :
     simp [fmtDefs, List.filter_map, Function.comp_def]
   rw [this, xlsxClass_filter]
 
+/-! ## xlsb: decode ∘ encode -/
+
+theorem u16le_le16 (n : Nat) (h : n < 65536) (rest : Bytes) : Xlsb.u16le (Xlsb.le16 n ++ rest) = n := by
+  simp [Xlsb.u16le, Xlsb.le16, Xlsb.toNat_ofNat']
+  omega
+
+theorem nextSkip_here (target : Nat) (ht : target < 16384) (tp : Bytes) (htp : tp.length < 268435456) (w : Bool) (lw : Nat)
+    (rest : Bytes) (f : Nat) (hf : 0 < f) :
+    Xlsb.nextSkipBlocks target [] f [] (Xlsb.frame target tp w lw ++ rest) = .ok (tp.length, tp, rest) := by
+  obtain ⟨buf', h⟩ := Xlsb.nextSkipBlocks_segs target ht [] tp htp w lw rest [] f [] (by simp) (by simpa [Xlsb.segsSize] using hf)
+  simpa [Xlsb.encodeSegs, Xlsb.fillBuf] using h
+
+theorem xlsbFmtLoop_enc (frs : List Fr) : ∀ (formats : List (Nat × List Char)) (i : Nat) (rest : Bytes)
+    (defs : List (Nat × List Char)),
+    (∀ f ∈ formats, f.1 < 65536 ∧ (utf16Units f.2).length < 100000000) →
+    xlsbFmtLoop formats.length (encFmts formats frs i ++ rest) defs = .ok (defs ++ formats, rest)
+  | [], i, rest, defs, _ => by simp [xlsbFmtLoop, encFmts]
+  | (id, s) :: formats, i, rest, defs, h => by
+    obtain ⟨hid, hlen0⟩ := h (id, s) (by simp)
+    have hlen : (utf16Units s).length < 100000000 := hlen0
+    have hpl : (brtFmtPayload id s).length < 268435456 := by
+      simp [brtFmtPayload, Xlsb.le16, Xlsb.wideBytes, Xlsb.le32, Xlsb.unitsBytes_length]; omega
+    simp only [List.length_cons, xlsbFmtLoop, encFmts, List.append_assoc]
+    rw [nextSkip_here 0x002C (by decide) _ hpl _ _ _ _ (by omega)]
+    simp only
+    have h2 : ¬ (brtFmtPayload id s).length < 2 := by simp [brtFmtPayload, Xlsb.le16]
+    rw [if_neg h2]
+    have hd : (brtFmtPayload id s).drop 2 = Xlsb.wideBytes (utf16Units s) ++ [] := by
+      simp [brtFmtPayload, Xlsb.le16]
+    rw [hd, Xlsb.wideStr_wideBytes _ (by omega) (utf16Units_lt s)]
+    simp only
+    have hu : Xlsb.u16le (brtFmtPayload id s) = id := u16le_le16 id hid _
+    rw [hu, utf16Decode_units, xlsbFmtLoop_enc frs formats (i + 1) rest _ (fun f hf => h f (by simp [hf]))]
+    simp
+
+theorem xlsbXfLoop_enc (frs : List Fr) : ∀ (xfs : List Nat) (i : Nat) (rest : Bytes) (acc : List Nat),
+    (∀ x ∈ xfs, x < 65536) → xlsbXfLoop xfs.length (encXfs xfs frs i ++ rest) acc = .ok (acc ++ xfs)
+  | [], i, rest, acc, _ => by simp [xlsbXfLoop, encXfs]
+  | x :: xfs, i, rest, acc, h => by
+    have hx := h x (by simp)
+    have hpl : (brtXfPayload x 0xFFFF (List.replicate 12 0)).length < 268435456 := by
+      simp [brtXfPayload, Xlsb.le16]
+    simp only [List.length_cons, xlsbXfLoop, encXfs, List.append_assoc]
+    rw [nextSkip_here 0x002F (by decide) _ hpl _ _ _ _ (by omega)]
+    simp only
+    have h2 : ¬ (brtXfPayload x 0xFFFF (List.replicate 12 0)).length < 4 := by simp [brtXfPayload, Xlsb.le16]
+    rw [if_neg h2]
+    have hd : (brtXfPayload x 0xFFFF (List.replicate 12 0)).drop 2 = Xlsb.le16 x ++ List.replicate 12 0 := by
+      simp [brtXfPayload, Xlsb.le16]
+    rw [hd, u16le_le16 x hx, xlsbXfLoop_enc frs xfs (i + 1) rest _ (fun y hy => h y (by simp [hy]))]
+    simp
+
+/-- records the outer loop skips -/
+theorem xlsbLoop_skip : ∀ (recs : List BRec), (∀ r ∈ recs, r.Fits ∧ r.id ≠ 0x0267 ∧ r.id ≠ 0x0269) →
+    ∀ (fuel : Nat) (rest : Bytes) (defs : List (Nat × List Char)),
+    xlsbStylesLoop (fuel + recs.length) (encRecs recs ++ rest) defs = xlsbStylesLoop fuel rest defs
+  | [], _, fuel, rest, defs => by simp [encRecs]
+  | r :: recs, h, fuel, rest, defs => by
+    obtain ⟨⟨hid, hpl⟩, h1, h2⟩ := h r (by simp)
+    have ih := xlsbLoop_skip recs (fun x hx => h x (by simp [hx])) fuel rest defs
+    rw [List.length_cons, ← Nat.add_assoc]
+    simp only [encRecs, BRec.bytes, List.append_assoc]
+    rw [Xlsb.frame_eq, xlsbStylesLoop, Xlsb.readType_encId _ hid]
+    simp only
+    rw [Xlsb.fillBuffer_enc _ _ hpl]
+    simp only
+    rw [if_neg h1, if_neg h2]
+    exact ih
+
+theorem encRecs_length_ge : ∀ (recs : List BRec), 2 * recs.length ≤ (encRecs recs).length
+  | [] => by simp [encRecs]
+  | r :: recs => by
+    have := encRecs_length_ge recs
+    have h2 := Xlsb.frame_length_ge r.id r.payload r.wide r.lenW
+    simp only [encRecs, BRec.bytes, List.length_append, List.length_cons]
+    omega
+
+theorem xlsbLoop_beginFmts (fuel : Nat) (bs r r' buf : Bytes) (n : Nat) (defs defs' : List (Nat × List Char)) (r'' : Bytes)
+    (ht : Xlsb.readType bs = .ok (0x0267, r)) (hf : Xlsb.fillBuffer [] r = .ok (n, buf, r')) (hl : ¬ buf.length < 4)
+    (hloop : xlsbFmtLoop (Xlsb.u32le buf) r' defs = .ok (defs', r'')) :
+    xlsbStylesLoop (fuel + 1) bs defs = xlsbStylesLoop fuel r'' defs' := by
+  simp [xlsbStylesLoop, ht, hf, hl, hloop]
+
+theorem xlsbLoop_beginXfs (fuel : Nat) (bs r r' buf : Bytes) (n : Nat) (defs : List (Nat × List Char)) (xfs : List Nat)
+    (ht : Xlsb.readType bs = .ok (0x0269, r)) (hf : Xlsb.fillBuffer [] r = .ok (n, buf, r')) (hl : ¬ buf.length < 4)
+    (hloop : xlsbXfLoop (Xlsb.u32le buf) r' [] = .ok xfs) :
+    xlsbStylesLoop (fuel + 1) bs defs = .ok (defs, xfs) := by
+  simp [xlsbStylesLoop, ht, hf, hl, hloop]
+
+theorem xlsbStylesLoop_enc (d : StyleDesc) (l : XlsbLayout) (hd : d.WFb) (hl : l.WF) (fuel : Nat)
+    (hf : l.pre.length + l.mid.length + 3 ≤ fuel) :
+    xlsbStylesLoop fuel (xlsbEncode d l) [] = .ok (d.formats, d.xfs) := by
+  obtain ⟨hfm, hxf, hn1, hn2⟩ := hd
+  obtain ⟨hpre, hmid⟩ := hl
+  obtain ⟨f1, rfl⟩ : ∃ f1, fuel = (f1 + 1 + (l.mid.length + 1) + 1) + l.pre.length := ⟨fuel - (l.pre.length + l.mid.length + 3), by omega⟩
+  unfold xlsbEncode
+  rw [xlsbLoop_skip l.pre hpre]
+  -- BrtBeginFmts
+  have hu : Xlsb.u32le (Xlsb.fillBuf [] (Xlsb.le32 d.formats.length)) = d.formats.length := by
+    have := Xlsb.u32le_le32 d.formats.length hn1 []
+    rwa [List.append_nil] at this
+  rw [Xlsb.frame_eq]
+  rw [xlsbLoop_beginFmts _ _ _ _ _ _ [] d.formats _ (Xlsb.readType_encId _ (by decide) _ _)
+    (Xlsb.fillBuffer_enc _ _ (by simp [Xlsb.le32]) _ _) (by simp [Xlsb.fillBuf, Xlsb.le32])
+    (by rw [hu]; simpa using xlsbFmtLoop_enc l.fmtFr d.formats 0 _ [] hfm)]
+  -- BrtEndFmts and the records up to the cell XFs
+  have hskip := xlsbLoop_skip (⟨0x0268, [], false, 0⟩ :: l.mid)
+    (by
+      intro r hr
+      rcases List.mem_cons.mp hr with rfl | hr
+      · exact ⟨⟨by decide, by simp⟩, by decide, by decide⟩
+      · exact hmid r hr)
+    (f1 + 1) (Xlsb.frame 0x0269 (Xlsb.le32 d.xfs.length) l.hdrFr.wide l.hdrFr.lenW ++ (encXfs d.xfs l.xfFr 0 ++ l.post)) d.formats
+  simp only [encRecs, BRec.bytes, List.length_cons, List.append_assoc] at hskip
+  rw [hskip]
+  -- BrtBeginCellXFs
+  have hu' : Xlsb.u32le (Xlsb.fillBuf [] (Xlsb.le32 d.xfs.length)) = d.xfs.length := by
+    have := Xlsb.u32le_le32 d.xfs.length hn2 []
+    rwa [List.append_nil] at this
+  rw [Xlsb.frame_eq]
+  exact xlsbLoop_beginXfs _ _ _ _ _ _ _ _ (Xlsb.readType_encId _ (by decide) _ _)
+    (Xlsb.fillBuffer_enc _ _ (by simp [Xlsb.le32]) _ _) (by simp [Xlsb.fillBuf, Xlsb.le32])
+    (by rw [hu']; simpa using xlsbXfLoop_enc l.xfFr d.xfs 0 l.post [] hxf)
+
+/-- xlsb: the style table decoded from the bytes of the styles part is the table the builder makes from the logical
+    lists — whatever records stand before the format table, between it and the cell XFs (among them the cell-STYLE XF
+    block with its own BrtXF records) and after the cell XFs, under any legal framing of the records -/
+theorem xlsbStylesOfBytes_enc (d : StyleDesc) (l : XlsbLayout) (hd : d.WFb) (hl : l.WF) :
+    xlsbStylesOfBytes (xlsbEncode d l) = xlsbStyles d.formats d.xfs := by
+  have hlen : l.pre.length + l.mid.length + 3 ≤ (xlsbEncode d l).length + 1 := by
+    have h1 := encRecs_length_ge l.pre
+    have h2 := encRecs_length_ge l.mid
+    have h3 := Xlsb.frame_length_ge 0x0267 (Xlsb.le32 d.formats.length) l.hdrFr.wide l.hdrFr.lenW
+    have h4 := Xlsb.frame_length_ge 0x0269 (Xlsb.le32 d.xfs.length) l.hdrFr.wide l.hdrFr.lenW
+    simp only [xlsbEncode, List.length_append]
+    omega
+  unfold xlsbStylesOfBytes
+  rw [xlsbStylesLoop_enc d l hd hl _ hlen]
+
+/-! ## xlsx: the event loop always ends with a table or an error -/
+
+theorem xlsxStylesLoop_total : ∀ (evs : List SEv) (mode : SMode) (defs : List (Bytes × List Char)) (fmts : List CellFormat),
+    (∃ t, xlsxStylesLoop mode evs defs fmts = .ok t) ∨ (∃ e, xlsxStylesLoop mode evs defs fmts = .err e)
+  | [], mode, _, _ => by cases mode <;> simp [xlsxStylesLoop]
+  | ev :: rest, .top, defs, fmts => by
+    unfold xlsxStylesLoop
+    cases ev with
+    | start n a =>
+      simp only
+      split
+      · exact xlsxStylesLoop_total rest _ _ _
+      · split <;> exact xlsxStylesLoop_total rest _ _ _
+    | end_ n =>
+      simp only
+      split
+      · exact Or.inl ⟨_, rfl⟩
+      · exact xlsxStylesLoop_total rest _ _ _
+    | other => exact xlsxStylesLoop_total rest _ _ _
+  | ev :: rest, .numFmts, defs, fmts => by
+    unfold xlsxStylesLoop
+    cases ev with
+    | start n a =>
+      simp only
+      split
+      · cases attr "formatCode" a with
+        | none => exact xlsxStylesLoop_total rest _ _ _
+        | some code =>
+          simp only
+          cases Utf8.utf8Decode (code.map (·.toNat)) with
+          | none => exact Or.inr ⟨_, rfl⟩
+          | some cs => exact xlsxStylesLoop_total rest _ _ _
+      · exact xlsxStylesLoop_total rest _ _ _
+    | end_ n =>
+      simp only
+      split <;> exact xlsxStylesLoop_total rest _ _ _
+    | other => exact xlsxStylesLoop_total rest _ _ _
+  | ev :: rest, .cellXfs, defs, fmts => by
+    unfold xlsxStylesLoop
+    cases ev with
+    | start n a =>
+      simp only
+      split
+      · rw [xlsxStyles_eq_map]
+        exact xlsxStylesLoop_total rest _ _ _
+      · exact xlsxStylesLoop_total rest _ _ _
+    | end_ n =>
+      simp only
+      split <;> exact xlsxStylesLoop_total rest _ _ _
+    | other => exact xlsxStylesLoop_total rest _ _ _
+
 end Formats
